@@ -60,28 +60,39 @@ def _mc(chk, sc):
 # generation (TLC)
 # ------------------------------------------------------------------------------------------------
 
-def _gen(sc, fam, specs, seed):
-    """specs: list of dicts; mode x: {n, lo, cnt, stride, only}; mode s: {nmin, nmax, num, depth, seed}."""
-    cfgx, cfgs = sc.file("genx.cfg"), sc.file("gens.cfg")
+def _gen(sc, fam, segs, seed, nproc):
+    """segs: segments {n, lo, cnt, stride, only, nmin, nmax} (see DepsGen.tla), dealt over `nproc`
+    generator processes (JVM start + parsing cost as much as ~1000 cases, so few processes)."""
+    cfgx = sc.file("genx.cfg")
     write_cfg(cfgx, init="InitX", next_="NextX")
-    write_cfg(cfgs, init="InitS", next_="NextS")
+    pieces = []
+    for sg in segs:
+        per = 2048 if sg["only"] == "acyclic" else 512
+        k = 0
+        while k < sg["cnt"]:
+            c = min(per, sg["cnt"] - k)
+            if sg["only"] == "rand":
+                lo = sg["lo"] + k
+            else:
+                mod = 1 << (sg["n"] * (sg["n"] - 1 if sg["only"] == "acyclic" else sg["n"]))
+                lo = (sg["lo"] + k * sg["stride"]) % mod
+            pieces.append(dict(sg, lo=lo, cnt=c))
+            k += c
+    nproc = max(1, min(nproc, len(pieces)))
+    plans = [pieces[i::nproc] for i in range(nproc)]
 
-    def one(k, sp):
-        env = {"GEN_FAM": fam, "GEN_SALT": seed % 1000, "GEN_TAG": "%s%d." % (fam[:2], k)}
-        md = os.path.join(sc.sub("meta"), "gen-%s-%d" % (fam, k))
-        if "num" in sp:
-            env.update(GEN_NMIN=sp["nmin"], GEN_NMAX=sp["nmax"], GEN_NSALT=24)
-            res = run_tlc(os.path.join(AREA, "DepsGen.tla"), cfgs, workers=1, simulate=sp["num"],
-                          depth=sp.get("depth", 40), seed=sp["seed"], env=env, metadir=md, timeout=1500)
-        else:
-            env.update(GEN_N=sp["n"], GEN_LO=sp["lo"], GEN_CNT=sp["cnt"], GEN_STRIDE=sp.get("stride", 1),
-                       GEN_ONLY=sp.get("only", "all"))
-            res = run_tlc(os.path.join(AREA, "DepsGen.tla"), cfgx, workers=1, env=env, metadir=md, timeout=1500)
+    def runx(k, plan):
+        path = sc.file("plan-%s-%d.json" % (fam, k))
+        with open(path, "w") as f:
+            json.dump(plan, f)
+        env = {"GEN_FAM": fam, "GEN_SALT": seed % 1000, "GEN_TAG": "%s%d." % (fam[:2], k), "GEN_PLAN": path}
+        res = run_tlc(os.path.join(AREA, "DepsGen.tla"), cfgx, workers=1, env=env, timeout=2400,
+                      metadir=os.path.join(sc.sub("meta"), "genx-%s-%d" % (fam, k)))
         if not res.completed:
             raise MachineryError("DepsGen did not complete:\n" + res.error_trace_tail(30))
         return res
 
-    results = run_parallel([lambda k=k, sp=sp: one(k, sp) for k, sp in enumerate(specs)], nproc=NPROC)
+    results = run_parallel([lambda k=k, pl=pl: runx(k, pl) for k, pl in enumerate(plans)], nproc=NPROC)
     cases, seen = [], set()
     for res in results:
         for c in res.printed_json():
@@ -94,51 +105,32 @@ def _gen(sc, fam, specs, seed):
     return cases, results
 
 
-def _split(n, lo, cnt, pieces, **kw):
-    """split an exhaustive range over several generator processes"""
-    out = []
-    step = (cnt + pieces - 1) // pieces
-    stride = kw.get("stride", 1)
-    k = 0
-    while k < cnt:
-        c = min(step, cnt - k)
-        out.append(dict(kw, n=n, lo=(lo + k * stride) % (1 << (n * n)), cnt=c))
-        k += c
-    return out
-
-
 def _plan(fam, tier, seed):
+    """-> (segments, generator processes)"""
     rnd = random.Random(seed * 7919 + {"struct": 1, "static": 2, "mods": 3}[fam])
     odd = lambda: rnd.randrange(1, 1 << 15) * 2 + 1
-    sp = []
+
+    def seg(n, lo, cnt, stride=1, only="all", nmin=0, nmax=0):
+        return dict(n=n, lo=lo, cnt=cnt, stride=stride, only=only, nmin=nmin, nmax=nmax)
+
+    def rand(cnt, nmin, nmax):
+        return seg(0, rnd.randrange(1 << 20), cnt, 1, "rand", nmin, nmax)
+
+    full = [seg(n, 0, 1 << (n * n)) for n in (1, 2, 3)]
+    quick = tier == "quick"
     if fam == "struct":
-        for n in (1, 2, 3):
-            sp += _split(n, 0, 1 << (n * n), 2 if n == 3 else 1)
-        sp += _split(4, 0, 1 << 16, 8, only="acyclic")              # all 543 DAGs on 4 nodes
-        if tier == "quick":
-            sp += _split(4, rnd.randrange(1 << 16), 3072, 6, stride=odd())
-            sp += [dict(nmin=5, nmax=8, num=260, seed=seed * 100 + k) for k in range(6)]
-        else:
-            sp += _split(4, 0, 1 << 16, 16)
-            sp += [dict(nmin=5, nmax=8, num=1500, seed=seed * 100 + k) for k in range(12)]
-    elif fam == "static":
-        for n in (1, 2, 3):
-            sp += _split(n, 0, 1 << (n * n), 1)
-        if tier == "quick":
-            sp += _split(4, rnd.randrange(1 << 16), 1024, 2, stride=odd())
-            sp += [dict(nmin=5, nmax=7, num=150, seed=seed * 100 + 50 + k) for k in range(2)]
-        else:
-            sp += _split(4, 0, 1 << 16, 16)
-            sp += [dict(nmin=5, nmax=8, num=1000, seed=seed * 100 + 50 + k) for k in range(4)]
-    else:
-        for n in (1, 2, 3):
-            sp += _split(n, 0, 1 << (n * n), 1)
-        if tier == "quick":
-            sp += _split(4, rnd.randrange(1 << 16), 256, 1, stride=odd())
-        else:
-            sp += _split(4, 0, 1 << 16, 16)
-            sp += [dict(nmin=5, nmax=6, num=500, seed=seed * 100 + 80 + k) for k in range(2)]
-    return sp
+        segs = full + [seg(4, 0, 1 << 12, only="acyclic")]               # all 543 DAGs on 4 nodes
+        if quick:
+            return segs + [seg(4, rnd.randrange(1 << 16), 1536, odd()), rand(1200, 5, 8)], 3
+        return segs + [seg(4, 0, 1 << 16), seg(5, rnd.randrange(1 << 20), 1 << 16, odd(), "acyclic"),
+                       rand(20000, 5, 8)], 12
+    if fam == "static":
+        if quick:
+            return full + [seg(4, rnd.randrange(1 << 16), 512, odd()), rand(256, 5, 8)], 1
+        return full + [seg(4, 0, 1 << 16), rand(4000, 5, 8)], 10
+    if quick:
+        return full + [seg(4, rnd.randrange(1 << 16), 128, odd()), rand(64, 5, 6)], 1
+    return full + [seg(4, 0, 1 << 16), rand(1000, 5, 6)], 10
 
 
 # ------------------------------------------------------------------------------------------------
@@ -217,7 +209,7 @@ def _decide(sc, name, records, nshards=None):
         return [], [], []
     cfg = sc.file("check.cfg")
     write_cfg(cfg)
-    nshards = nshards or max(1, min(NPROC, len(records) // 400 + 1))
+    nshards = nshards or max(1, min(NPROC, len(records) // 1500 + 1))
     shards = [s for s in chunks(records, nshards) if s]
 
     def one(k, shard):
@@ -242,8 +234,8 @@ def _decide(sc, name, records, nshards=None):
 
 
 def _family(chk, sc, fam):
-    specs = _plan(fam, chk.tier, chk.seed)
-    cases, gres = _gen(sc, fam, specs, chk.seed)
+    segs, nproc = _plan(fam, chk.tier, chk.seed)
+    cases, gres = _gen(sc, fam, segs, chk.seed, nproc)
     for r in gres:
         chk.add_tlc(r, part="gen-" + fam)
     obs = _observe(fam, cases)
